@@ -2373,3 +2373,14 @@ variant('b-receiver-waits-for-the-watchdog', ['C11'], 'rsocket/rsocket_client.py
 variant('b-watchdog-never-cancelled', ['C11'], 'rsocket/rsocket_client.py',
         "            if keepalive_timeout_task is not None:\n                keepalive_timeout_task.cancel()",
         "            pass", ('C11.e', 'local task keepalive_timeout_task'))
+
+# round 11: C02.i byte order, C08.k SETUP is the client's
+variant('b-position-packed-in-native-order', ['C02'], 'rsocket/frame_helpers.py',
+        "        return struct.pack('>Q', position & MASK_63_BITS)", "        return struct.pack('Q', position & MASK_63_BITS)",
+        ('C02.i', "struct format 'Q'"))
+variant('b-tag-length-little-endian-short', ['C18'], 'rsocket/extensions/authentication.py',
+        "struct.pack('>I'", "struct.pack('<I'", ('C02.i', 'struct format'))
+variant_multi('b-base-aenter-connects', ['C08'], [
+    (RB, "    async def __aenter__(self) -> 'RSocketBase':\n        return self",
+     "    async def __aenter__(self) -> 'RSocketBase':\n        await self.connect()\n        return self")],
+    ('C08.k', 'RSocketBase.__aenter__'))
